@@ -70,12 +70,12 @@ SpecStep(r) ==
     [] r.act = "setAdmin"      -> SetAdmin(e.S, e.via, e.n, e.o)
     [] r.act = "updateSOA"     -> UpdateSOA(e.S, e.via, e.n, e.m, e.x)
     [] r.act = "addRecord"     -> AddRecord(e.S, e.via, e.n, e.ty, e.d)
-    [] r.act = "setRecord"     -> SetRecordD({}, e.S, e.via, e.n, e.ty, e.x, e.d) \/ SetRecordD(AllDev, e.S, e.via, e.n, e.ty, e.x, e.d)
+    [] r.act = "setRecord"     -> SetRecord(e.S, e.via, e.n, e.ty, e.x, e.d)   \* Dev of the cfg: {} = the repaired method
     [] r.act = "deleteRecords" -> DeleteRecords(e.S, e.via, e.n, e.ty)
     [] OTHER -> FALSE
 
-\* the read methods answer what the Spec computes from the storage (the code as it is, or repaired)
-ApiStep == \E m \in {ApiModel({})', ApiModel(AllDev)'} : api' = m
+\* the read methods answer what the Spec computes from the storage (Dev of the cfg: {} = the repaired code)
+ApiStep == api' = ApiModel(Dev)'
 
 Judge(r) ==
   LET e == ev'
